@@ -539,7 +539,7 @@ func (server *SugarDB) handleConnection(conn net.Conn) {
 			break
 		}
 
-		res, err := server.handleCommand(ctx, message, &conn, false, false)
+		res, err := server.handleCommandRecover(ctx, message, &conn)
 		if err != nil && errors.Is(err, io.EOF) {
 			break
 		}
@@ -581,6 +581,19 @@ func (server *SugarDB) handleConnection(conn net.Conn) {
 			startIndex += chunkSize
 		}
 	}
+}
+
+// handleCommandRecover runs handleCommand for a TCP connection and turns a panic in a handler into an
+// error reply for that command, so that it cannot take the whole process (and every other connection) down.
+func (server *SugarDB) handleCommandRecover(ctx context.Context, message []byte, conn *net.Conn) (res []byte, err error) {
+	defer func() {
+		if r := recover(); r != nil {
+			log.Printf("panic while handling command: %v", r)
+			server.stateMutationInProgress.Store(false)
+			res, err = nil, fmt.Errorf("internal error: %v", r)
+		}
+	}()
+	return server.handleCommand(ctx, message, conn, false, false)
 }
 
 // Start starts the SugarDB instance's TCP listener.
